@@ -26,7 +26,7 @@ def WF : PExp → Prop
   | .int v => v ≤ i64Max
   | .num _ => True
   | .bool _ => True
-  | .var n => isKeyword n = false ∧ boolPrefix n = none
+  | .var n => isKeyword n = false
   | .call n args => isFunctionName n = true ∧ n ≠ "not" ∧ WFs args
   | .un _ e => WF e
   | .bin _ l r => WF l ∧ WF r
@@ -52,7 +52,7 @@ theorem render_tk (alias : Bool) : (t : PExp) → WF t →
   | .num s, _ => ⟨[.leaf (.num s)], Tk.atom (Atom.num s), fun _ => rfl⟩
   | .bool true, _ => ⟨[.leaf (.bool true)], Tk.atom Atom.tt, fun _ => rfl⟩
   | .bool false, _ => ⟨[.leaf (.bool false)], Tk.atom Atom.ff, fun _ => rfl⟩
-  | .var n, h => ⟨[.leaf (.var n)], Tk.atom (Atom.var n h.1 h.2), fun _ => rfl⟩
+  | .var n, h => ⟨[.leaf (.var n)], Tk.atom (Atom.var n h), fun _ => rfl⟩
   | .call n args, h => by
     have ha := renderArgs_tk alias args h.2.2
     exact ⟨[.leaf (.call n args)], by simpa [render] using Tk.call h.1 h.2.1 ha, fun _ => rfl⟩
